@@ -444,13 +444,19 @@ def check_bulk(chk, it, tabs, configs):
         def args_ok(a):
             if fn == 'wasmMemoryCopy':
                 def loc(v, mem, addr):
+                    # data + address, or &data[address]
+                    if is_sym(v) and v.op == 'addr' and is_sym(v.args[0]) and v.args[0].op == 'index':
+                        return set(v.args[0].args) == {unk('data:' + mem), unk(addr)}
                     return is_sym(v) and v.op == '+' and unk('data:' + mem) in v.args and unk(addr) in v.args
                 return loc(a[0], pn[0], pn[2]) and loc(a[1] if not isinstance(a[1], tuple) else a[1][1], pn[1], pn[3]) and \
                     pe.strip_casts(a[2]) == unk(pn[4])
             if fn == 'wasmMemoryFill':
                 v = a[1]
                 sl = runtime.sym_slice(v) if is_sym(v) else ('top',)
-                return is_sym(a[0]) and a[0].op == '+' and unk(pn[1]) in a[0].args and sl[0] == 'slice' and sl[1] == unk(pn[2]) and \
+                d0 = a[0]
+                if is_sym(d0) and d0.op == 'addr' and is_sym(d0.args[0]) and d0.args[0].op == 'index':
+                    d0 = pe.Sym('+', tuple(d0.args[0].args))          # &data[address]
+                return is_sym(d0) and d0.op == '+' and unk(pn[1]) in d0.args and sl[0] == 'slice' and sl[1] == unk(pn[2]) and \
                     pe.strip_casts(a[2]) == unk(pn[3])
             return True
         cnt = unk(pn[-1])
@@ -464,7 +470,7 @@ def check_bulk(chk, it, tabs, configs):
             if len(ev) == 1 and not touches and fn == 'wasmMemoryCopy' and ev[0][0] in ('memcpy', '__builtin_memcpy') and len(paths) == 1:
                 shape = 'memcpy'      # definite: undefined for overlapping ranges
                 break
-            shape = 'path %s performs %r' % (p.cond_text()[:80], [e[0] for e in ev] + [e[0] for e in touches])
+            shape = "path %s performs %r" % (p.cond_text()[:80], [e[:2] for e in ev] + [e[0] for e in touches])
             break
         if not paths and shape is None:
             shape = 'no path'
